@@ -103,8 +103,9 @@ def ts_rules(facts, rep):
     # the match after mem::replace restores a Storer on every non-error arm
     assigns = [(bi, si, s) for (f, bi, si, s) in field_assignments(facts, "inner", r"ZipWriter$") if f.path == ff.path]
     vals = [a_ for bi, si, s in assigns for a_ in alts(norm(exf.rvalue(s["rv"], (bi, si))))]
-    good = len(vals) >= 2 and all(v[0] == "agg" and v[1] == "adt:Storer" for v in vals) and \
-        any(v[3][0][1][0] == "agg" and v[3][0][1][1] == "adt:Unencrypted" for v in vals)
+    pay = [a_ for v in vals if v[0] == "agg" and v[3] for a_ in alts(v[3][0][1])]      # Storer(x): x may itself be chosen per arm
+    good = len(vals) >= 1 and all(v[0] == "agg" and v[1] == "adt:Storer" for v in vals) and len(pay) >= 2 and \
+        any(a_[0] == "agg" and a_[1] == "adt:Unencrypted" for a_ in pay)
     ok &= rep.check(good, rule, "I2:restore-storer", where(ff, ff.span), "inner := Storer(Unencrypted(..)) / Storer(w) on the success arms",
                     "finish_file restores %s" % [show(v)[:60] for v in vals])
     for nm in ("start_entry", "finalize"):
